@@ -39,7 +39,9 @@ type vfMutant struct {
 	Val   uint64
 }
 
-func (m vfMutant) String() string { return fmt.Sprintf("off=%d width=%d val=%#x", m.Off, m.Width, m.Val) }
+func (m vfMutant) String() string {
+	return fmt.Sprintf("off=%d width=%d val=%#x", m.Off, m.Width, m.Val)
+}
 
 var vfSignatures = []string{"OHDR", "TREE", "SNOD", "HEAP", "GCOL", "FRHP", "FHDB", "FHIB", "BTHD", "BTLF", "BTIN", "OCHK", "\x89HDF"}
 
